@@ -2,6 +2,8 @@
 //! `extracted.rs` is regenerated from the repository's current source on every run.
 #![allow(dead_code, unused_imports, clippy::all)]
 pub mod extracted;
+pub mod c42_extracted;
+pub mod c42;
 use extracted::{failing_ref_name, propagate_leaf_oid, Edit};
 
 /// The root of `i`'s parent chain.
